@@ -66,6 +66,29 @@ func manyRunes(n int) []string {
 // GenLarge returns the patterns, the unit picker, texts worth querying and keys worth
 // searching, and a label for the shape.
 func GenLarge(r *core.Rand, tier string) (pats []Seq, u Unit, texts []Seq, keys []Seq, shape string) {
+	if r.Chance(7) {
+		// BIG: N patterns that are suffixes of one another (the N longest suffixes of a random
+		// string), N around 255/256/257 and up: a trie of 30 000 – 120 000 nodes whose header holds
+		// more than BigLimit pattern bytes. The Lean driver then runs ONLY the array-backed
+		// pointer model (the label model cannot follow): `match` / `findall` / `dumpc`
+		// (mask / replace in C06) are compared with it.
+		n := []int{200, 255, 256, 257, 300}[r.Intn(5)]
+		l := n + r.Range(60, 200)
+		s := make(Seq, l)
+		for i := range s {
+			s[i] = []string{"a", "b", "c"}[r.Intn(3)]
+		}
+		for k := 0; k < n; k++ {
+			pats = append(pats, s[k:].Clone())
+		}
+		for i := len(pats) - 1; i > 0; i-- {
+			j := r.Intn(i + 1)
+			pats[i], pats[j] = pats[j], pats[i]
+		}
+		u = func(r *core.Rand) string { return []string{"a", "b", "c"}[r.Intn(3)] }
+		t := append(append(Seq{"z", "z"}, s...), "z")
+		return pats, u, []Seq{t, s[l/3:].Clone()}, []Seq{{}}, "big-nested"
+	}
 	if r.Chance(9) {
 		// a text (and results) beyond 64 KB: long runs of a filler that occurs in no pattern,
 		// a few dozen occurrences in between (results ≥ 64 KB for Replace / ReplaceWithMask)
@@ -177,8 +200,17 @@ func GenLarge(r *core.Rand, tier string) (pats []Seq, u Unit, texts []Seq, keys 
 }
 
 func genLarge(r *core.Rand, tier string) core.Case {
-	pats, u, texts, keys, _ := GenLarge(r, tier)
+	pats, u, texts, keys, shape := GenLarge(r, tier)
 	lines := []string{Header("C05", SeqsBytes(pats))}
+	if shape == "big-nested" {
+		if DumpAvailable() {
+			lines = append(lines, "dumpc")
+		}
+		for _, t := range texts {
+			lines = append(lines, "match "+Hex(t.Bytes()), "findall "+Hex(t.Bytes()))
+		}
+		return core.Case{Lines: lines, Tag: "large"}
+	}
 	if r.Chance(50) && DumpAvailable() {
 		lines = append(lines, "dump")
 	}
@@ -204,9 +236,36 @@ func genLarge(r *core.Rand, tier string) core.Case {
 }
 
 // LargeShare: per-mille of generated cases that belong to the large stream.
+// BigLimit: headers with more pattern bytes run in the Lean driver's big mode
+// (`bigLimit` in Golib/Model/C05.lean).
+const BigLimit = 20000
+
 func LargeShare(tier string) int {
 	if tier == "thorough" {
 		return 6
 	}
 	return 4
+}
+
+// BigCorpus is the fixed big case: the 256 longest suffixes of a 420-byte string over {a,b,c}
+// produced by a small LCG (≈ 80 000 nodes; the BFS ring grows wrapped several times), with
+// the compact structural dump and the given ops on the text zz·string·z.
+func BigCorpus(id string, ops func(text []byte) []string) core.Case {
+	x := uint32(12345)
+	s := make([]byte, 420)
+	for i := range s {
+		x = x*1664525 + 1013904223
+		s[i] = "abc"[(x>>16)%3]
+	}
+	var pats [][]byte
+	for k := 0; k < 256; k++ {
+		pats = append(pats, s[(k*97)%256:]) // a fixed non-monotone insertion order
+	}
+	lines := []string{Header(id, pats)}
+	if DumpAvailable() {
+		lines = append(lines, "dumpc")
+	}
+	text := append(append([]byte("zz"), s...), 'z')
+	lines = append(lines, ops(text)...)
+	return core.Case{Lines: lines, Tag: "large"}
 }
